@@ -442,10 +442,12 @@ def main():
     rep = harness.Report(
         PROP, args,
         functions=['skoolkit.ctlparser.CtlParser.parse_ctls / get_blocks (sub-block tiling, sublengths, loops)', 'skoolkit.snaskool.Disassembly._create_entries / _add_instructions (@bytes for variants)',
-                   'skoolkit.disassembler.Disassembler.disassemble / defb_range / defm_range / defw_range / defs_range', 'skoolkit.skoolutils.parse_asm_bytes_directive', 'skoolkit.z80.Assembler._assemble'],
+                   'skoolkit.disassembler.Disassembler.disassemble / defb_range / defm_range / defw_range / defs_range', 'skoolkit.skoolutils.parse_asm_bytes_directive', 'skoolkit.z80.Assembler._assemble',
+                   'textual route: skoolkit.snaskool.SkoolWriter.write_skool -> skoolkit.skool2bin.BinWriter (_parse_skool, _parse_instruction, _add_instructions, _relocate)'],
         bounds={'window': '%d-14 bytes at %d, all symbolic except in character-based shapes (2 symbolic bytes, the rest fixed to characters that exercise the escaping rules)' % (6 if args.tier == 'quick' else 8, A), 'ctl shapes': '%d control files: every block type, sub-block types B C S T W, sublength lists with b c d h m n prefixes, * multipliers, L loops, M, ignored blocks; '
                 'code fragments with pinned opcodes (incl. variants and prefixes) and symbolic operands' % len(corpus), 'settings': 'hex/decimal, case, DefbSize/DefmSize/DefwSize sets %r, Opcodes "" and ALL' % size_sets,
-                'outside': 'the textual skool file and skool2bin line reader (SkoolWriter -> text -> BinWriter parsing), line width, RST-argument handlers, Wrap at 65535 (C02 covers the instruction level), whole 64K images'},
+                'textual route': 'every shape at the main window, one size setting per base/case; jump operands concrete, symbolic words hashed by identity in skool2bin\'s address dictionary',
+                'outside': 'line width, RST-argument handlers, Wrap at 65535 (C02 covers the instruction level), whole 64K images'},
         assumptions=['numeral tokens / symbolic characters as in C02'],
         stubs=['int, eval, chr, ord, isinstance shadowed in skoolkit, z80, disassembler, skoolutils, snaskool'],
         rule='one case per feasible path per (control file, settings)',
